@@ -33,7 +33,7 @@ CHECK = {
          'and one removal. scripts: a case is one script (first load parked in the backing store x outcome ok|fail x 0..3 operations executed meanwhile x '
          'capacity x byte limit; the middle operations include "invalidate" = the channels of the model document change without a new revision/version and both its keys are removed), all scripts with <= 2 middle operations are enumerated, triples are sampled; distinct_nontrivial = distinct script '
          'shapes. invalidation: a case is one two-node database round (2..3 documents x 10 metadata-only channel updates with fresh channel names, 4..8 '
-         'concurrent readers on both nodes) plus 5 scripted histories (a reader parked right after its bucket read while the update is imported and passes the feed: GetActive x2 = read precedes the cache value, Get by revID x2 and Get by CV x1 = the invalidation arrives while the placeholder is loading) plus 2 scripted sequence-gap histories (the revision is resident on one or both nodes, a lower sequence is reserved and unused so both change caches park the update's mutation as pending, the reserved sequence is released and the pending mutation applied). dbdiff: a case is one document history (3..8 revisions, attachments, tombstones, '
+         'concurrent readers on both nodes) plus 5 scripted histories (a reader parked right after its bucket read while the update is imported and passes the feed: GetActive x2 = read precedes the cache value, Get by revID x2 and Get by CV x1 = the invalidation arrives while the placeholder is loading) plus 2 scripted sequence-gap histories (the revision is resident on one or both nodes, a lower sequence is reserved and unused so both change caches park the mutation of the update as pending, the reserved sequence is released and the pending mutation applied). dbdiff: a case is one document history (3..8 revisions, attachments, tombstones, '
          'expiry) followed by 4..10 reads with different options, each followed by a cached-vs-fresh comparison.',
  'parts': [
    {'name': 'stress', 'pkg': 'db', 'race': True, 'run': '^TestVerif_C16_Stress$', 'timeout_q': 400, 'timeout_t': 2400},
